@@ -390,6 +390,18 @@ func (n *Assignment) String() string {
 		s.WriteString(" /= ")
 	case AssignmentModulo:
 		s.WriteString(" %= ")
+	case AssignmentAnd:
+		s.WriteString(" &= ")
+	case AssignmentOr:
+		s.WriteString(" |= ")
+	case AssignmentXor:
+		s.WriteString(" ^= ")
+	case AssignmentAndNot:
+		s.WriteString(" &^= ")
+	case AssignmentLeftShift:
+		s.WriteString(" <<= ")
+	case AssignmentRightShift:
+		s.WriteString(" >>= ")
 	case AssignmentIncrement:
 		s.WriteString("++")
 	case AssignmentDecrement:
@@ -592,6 +604,10 @@ func (n *ChanType) String() string {
 	if n.Direction == SendDirection {
 		s += "<-"
 	}
+	if e, ok := n.ElementType.(*ChanType); ok && n.Direction == NoDirection && e.Direction == ReceiveDirection {
+		// chan (<-chan T): without parentheses it would be read as chan<- (chan T).
+		return s + " (" + e.String() + ")"
+	}
 	return s + " " + n.ElementType.String()
 }
 
@@ -622,7 +638,9 @@ func NewCompositeLiteral(pos *Position, typ Expression, keyValues []KeyValue) *C
 // String returns the string representation of n.
 func (n *CompositeLiteral) String() string {
 	var s strings.Builder
-	s.WriteString(n.Type.String())
+	if n.Type != nil {
+		s.WriteString(n.Type.String())
+	}
 	if expandedPrint {
 		s.WriteString("{")
 		for i, kv := range n.KeyValues {
@@ -862,11 +880,18 @@ func (n *FuncType) String() string {
 		if i > 0 {
 			s += ", "
 		}
+		if n.IsVariadic && i == len(n.Parameters)-1 && param.Type != nil {
+			if param.Ident != nil {
+				s += param.Ident.Name + " "
+			}
+			s += "..." + param.Type.String()
+			continue
+		}
 		s += param.String()
 	}
 	s += ")"
 	if len(n.Result) > 0 {
-		if n.Result[0].Ident == nil {
+		if len(n.Result) == 1 && n.Result[0].Ident == nil {
 			s += " " + n.Result[0].Type.String()
 		} else {
 			s += " ("
@@ -1555,7 +1580,7 @@ func (n *Var) String() string {
 	s.WriteString("var ")
 	for i, ident := range n.Lhs {
 		if i > 0 {
-			s.WriteString(" ")
+			s.WriteString(", ")
 		}
 		s.WriteString(ident.Name)
 	}
@@ -1566,7 +1591,7 @@ func (n *Var) String() string {
 		s.WriteString(" = ")
 		for i, value := range n.Rhs {
 			if i > 0 {
-				s.WriteString(" ")
+				s.WriteString(", ")
 			}
 			s.WriteString(value.String())
 		}
